@@ -115,7 +115,7 @@ FDec(t) == /\ pc[t] = "m3f_dec" /\ pending' = pending - 1 /\ Goto(t, "fin")
 CCas(t) == /\ pc[t] = "m3c_cas"
            /\ IF ~closeCalled THEN retAtClose' = returned /\ closeCalled' = TRUE ELSE UNCHANGED <<retAtClose, closeCalled>>
            /\ IF done
-              THEN /\ closeRes' = [closeRes EXCEPT ![t] = IF WeakSecondCloseOk THEN "ok" ELSE "err"] /\ Goto(t, "fin") /\ UNCHANGED done
+              THEN /\ closeRes' = [closeRes EXCEPT ![t] = IF WeakSecondCloseOk THEN "ok" ELSE "err"] /\ Goto(t, "m3r_inc") /\ UNCHANGED done   \* its Close has returned (an error): then one report, like the other closer
               ELSE /\ done' = TRUE /\ Goto(t, "m3c_spin") /\ UNCHANGED closeRes
            /\ UNCHANGED <<idx, pending, doneClosed, metClosed, q, mets, bytes, sent, now, clk, panicked, called, returned, closeReturned, lateEnq, hold, inner>>
 CSpin(t) == /\ pc[t] = "m3c_spin" /\ (pending = 0 \/ WeakCloseNoSpin) /\ Goto(t, "m3c_closedone")
